@@ -54,6 +54,13 @@ add("C01", "E2", "property-based testing: generated mapping plans, compile-and-r
     "Exploration: semantic mapping plans (10 documented struct forms, all 12 kinds, every member-instruction role) are rendered into o2o instructions and, independently, into reference functions; each batch is compiled by rustc next to harness-owned types and run on distinct leaf values; whole-value equality per conversion flavour.",
     TB2, "DESIGN.md 3/C01")
 
+add("C02", "E2", "property-based testing: generated enum mapping plans, compile-and-run differential against reference match functions",
+    "Exploration: enum plans (variant renames, type_hint form switches, payload roles incl. by-ref deref expressions, ghost variants, D-only variants, default cases, variant-level expressions) rendered into instructions and independently into reference match functions; every source variant is converted with distinct payload values and compared.",
+    TB2, "DESIGN.md 3/C02")
+add("C03", "E2", "property-based testing: generated nesting trees with permuted flat members, compile-and-run differential against literal nested construction",
+    "Exploration: random nesting trees (named/tuple nodes, child-path ghosts) with the flat struct's members in a random permutation, and the inverse family (#[parent(..)] recursive / bare #[parent]); rustc must accept the expansion (a struct built twice or a missing member is a compile error) and From/Into/IntoExisting results must equal a literally written reference.",
+    TB2, "DESIGN.md 3/C03")
+
 NOT_YET = {
 }
 
